@@ -81,6 +81,21 @@ def gen_calls(tier, seed):
                         calls.append(call('make_sequence', content(kind, n), symbol_count=k, error=e, boost_error=False))
                         if d == 0:
                             calls.append(call('make_sequence', content(kind, n), symbol_count=k, error=e))
+    # heterogeneous messages: a leading run of a denser class (digits / upper case / kanji) that covers whole chunks; the symbols are sized
+    # and written in the mode of the WHOLE message (chunk lengths around every capacity step of versions 1-6)
+    for lead, rest in (('7', 'a'), ('7', 'A'), ('A', 'a'), ('\u70b9', '\uff71')):
+        for k in (2, 3, 4):
+            for per in ((8, 11, 14, 16, 17, 20, 26, 32, 42, 52, 53, 62, 78, 84, 106, 134) if quick else range(4, 140)):
+                if lead == '\u70b9':
+                    per = max(2, per // 2)
+                msg = lead * per + rest * (per * (k - 1))
+                for e in (None, 'H') if quick else (None, 'M', 'Q', 'H'):
+                    kw = {'symbol_count': k}
+                    if e:
+                        kw['error'] = e
+                    calls.append(call('make_sequence', msg, **kw))
+                if per % 3 == 2 or not quick:
+                    calls.append(call('make_sequence', msg, version=1 + per // 12))
     # explicit encodings and integers
     for enc in ('utf-8', 'iso-8859-15', 'shift_jis'):
         for k in (2, 3):
